@@ -159,4 +159,35 @@ def resetTimeout (cfg : Cfg) (n : Node) (cid : Cid) : Node :=
     counted as expired (consistently with `hasActive`) -/
 def evict (n : Node) : Node := { n with convs := n.convs.filter (fun c => c.expiry > n.now) }
 
+/-! ### State.Add: the add mutex (network/dag/state.go Add, go-stoabs bbolt doTX) -/
+
+/-- how `db.Write(fn, hooks…)` can end -/
+inductive WriteExit where
+  | committed      -- fn ok, commit ok: the AfterCommit hooks run
+  | fnError        -- fn returned an error: rollback, the OnRollback hooks run
+  | commitError    -- commit failed / context expired at commit: rollback, the OnRollback hooks run
+  | noTransaction  -- failed BEFORE a transaction existed (write lock not obtained in time, store closed, Begin failed): NO hook runs
+  deriving DecidableEq, Repr
+
+/-- where `Add` releases `addMutex` -/
+structure AddUnlock where
+  deferred : Bool       -- `defer unlock()` at the top level of Add
+  afterCommit : Bool    -- registered as `stoabs.AfterCommit` hook
+  onRollback : Bool     -- released inside the `stoabs.OnRollback` handler
+  once : Bool           -- the release goes through a `sync.Once`
+  deriving DecidableEq, Repr
+
+def hookUnlocks (u : AddUnlock) : WriteExit → Nat
+  | .committed => if u.afterCommit then 1 else 0
+  | .fnError => if u.onRollback then 1 else 0
+  | .commitError => if u.onRollback then 1 else 0
+  | .noTransaction => 0
+
+def requestedUnlocks (u : AddUnlock) (e : WriteExit) : Nat :=
+  hookUnlocks u e + (if u.deferred then 1 else 0)
+
+/-- number of `addMutex.Unlock()` calls on this exit of Add (0 = the mutex stays locked for ever, 2 = unlock of an unlocked mutex) -/
+def unlockCalls (u : AddUnlock) (e : WriteExit) : Nat :=
+  if u.once then Nat.min (requestedUnlocks u e) 1 else requestedUnlocks u e
+
 end Nuts.Proto
